@@ -652,6 +652,159 @@ func run(args []string) error {
 		}
 	}
 
+	// ---- algebraically adversarial signatures: the double scalar multiplication na*A + ng*G of
+	//      verification / recovery is steered into P+P, P+(-P) and infinity intermediates.
+	//      With A = t*G known (A = Q = d*G for verification, A = R = k*G for recovery) the two
+	//      partial results are small multiples of the same point: na = a, ng = b*t.
+	modN := func(z *big.Int) *big.Int { return new(big.Int).Mod(z, bigN) }
+	inv := func(z *big.Int) *big.Int { return new(big.Int).ModInverse(modN(z), bigN) }
+	small := []int64{1, 2, 3, 4, -1, -2, -3}
+	structured := func() *big.Int { // scalars whose wNAF / 128-bit split has zero low digits, small ones, powers of two
+		for {
+			k := g.validKey()
+			switch g.r.Intn(8) {
+			case 0, 1, 2: // even, bit 128 clear
+				k.SetBit(k, 0, 0)
+				k.SetBit(k, 128, 0)
+			case 3:
+				k = new(big.Int).Lsh(bi(1), uint(1+g.r.Intn(254)))
+			case 4:
+				k = bi(int64(2 + g.r.Intn(1000)))
+			case 5: // low 128 bits zero
+				k.Rsh(k, 128).Lsh(k, 128)
+			}
+			if k.Sign() > 0 && k.Cmp(bigN) < 0 {
+				return k
+			}
+		}
+	}
+	nAdv := n / 2
+	if nAdv < 40 {
+		nAdv = 40
+	}
+	for j := 0; j < nAdv; j++ {
+		// (1) valid signature for key d whose verification computes a*Q + (b*d)*G = a*Q + b*Q
+		{
+			d := structured()
+			a, b := small[g.r.Intn(len(small))], small[g.r.Intn(len(small))]
+			if a+b == 0 {
+				b = a // a*Q + a*Q
+			}
+			k := modN(new(big.Int).Mul(bi(a+b), d))
+			if k.Sign() == 0 {
+				continue
+			}
+			R := pubOf(k)
+			r := modN(new(big.Int).SetBytes(R[1:]))
+			s := modN(new(big.Int).Mul(r, inv(bi(a))))
+			m := modN(new(big.Int).Mul(new(big.Int).Mul(modN(bi(b)), d), s))
+			if r.Sign() == 0 || s.Sign() == 0 {
+				continue
+			}
+			pk := pubOf(d)
+			for _, sv := range []*big.Int{s, new(big.Int).Sub(bigN, s)} {
+				var xy secp.XY
+				if err := xy.ParsePubkey(pk); err != nil {
+					return err
+				}
+				var sig secp.Signature
+				sig.R.Set(r)
+				sig.S.Set(sv)
+				var mm secp.Number
+				mm.Set(m)
+				var ok bool
+				obs := "0"
+				if Guard(func() { ok = sig.Verify(&xy, &mm) }) {
+					obs = "panic"
+				} else if ok {
+					obs = "1"
+				}
+				emit("adv", "verify", []string{hx(pk), hn(m), hn(r), hn(sv)}, obs, map[string]interface{}{"kind": fmt.Sprintf("verify a=%d b=%d", a, b)}, true)
+			}
+			// byte level (VerifySignature = recovery + comparison) with the low one of s, n-s
+			recid := int(R[0] & 1)
+			sv := s
+			if s.Cmp(bigHalf) > 0 {
+				sv = new(big.Int).Sub(bigN, s)
+				recid ^= 1
+			}
+			sb := sigT{r, sv, recid}.bytes()
+			var v int
+			obs := ""
+			if Guard(func() { v = secp256k1.VerifySignature(b32(m), sb, pk) }) {
+				obs = "panic"
+			} else {
+				obs = fmt.Sprint(v)
+			}
+			emit("adv", "vsig", []string{hx(b32(m)), hx(sb), hx(pk)}, obs, map[string]interface{}{"kind": fmt.Sprintf("vsig a=%d b=%d", a, b)}, true)
+			hist.Add(fmt.Sprintf("adv:verify:a=%d,b=%d=%s", a, b, obs))
+		}
+		// (2) recovery Q = u2*R + u1*G with R = k*G, u2 = a, u1 = b*k (b = -a gives infinity: must fail) or tiny u1
+		{
+			k := structured()
+			R := pubOf(k)
+			x := new(big.Int).SetBytes(R[1:])
+			if x.Cmp(bigN) >= 0 {
+				continue
+			}
+			a, b := small[g.r.Intn(len(small))], small[g.r.Intn(len(small))]
+			u2 := modN(bi(a))
+			u1 := modN(new(big.Int).Mul(bi(b), k))
+			kind := fmt.Sprintf("recover u2=%d u1=%d*k", a, b)
+			if g.r.Chance(25) {
+				t := []int64{0, 1, 2, -1, -2}[g.r.Intn(5)]
+				u1 = modN(bi(t))
+				kind = fmt.Sprintf("recover u2=%d u1=%d", a, t)
+			}
+			s := modN(new(big.Int).Mul(u2, x))
+			m := modN(new(big.Int).Neg(new(big.Int).Mul(u1, x)))
+			if s.Sign() == 0 {
+				continue
+			}
+			sg := sigT{x, s, int(R[0] & 1)}
+			msg := b32(m)
+			sb := sg.bytes()
+			var rec []byte
+			var code int
+			obs := ""
+			if Guard(func() { rec, code = secp.RecoverPublicKey(sb[:64], msg, sg.recid) }) {
+				obs = "panic"
+			} else if rec != nil {
+				obs = fmt.Sprintf("%d %s", code, hx(rec))
+			} else {
+				obs = fmt.Sprintf("%d nil", code)
+			}
+			emit("adv", "recover", []string{hx(msg), hx(sb)}, obs, map[string]interface{}{"kind": kind}, true)
+			hist.Add(fmt.Sprintf("adv:%s=%d", strings.SplitN(kind, " u1", 2)[0], code))
+		}
+		// (3) the abscissa classes [n, p): r tiny with recid 2/3 (x = r+n) and its re-encoding r+n with recid 0/1 (must be refused: r >= n)
+		{
+			r := bi(int64(1 + g.r.Intn(1<<16)))
+			if g.r.Chance(30) {
+				r = add(new(big.Int).Sub(bigP, bigN), -1-int64(g.r.Intn(1000)))
+			}
+			s := g.validKey()
+			msg := b32(g.rand256())
+			for _, c := range []struct {
+				r     *big.Int
+				recid int
+			}{{r, 2 + g.r.Intn(2)}, {new(big.Int).Add(r, bigN), g.r.Intn(2)}, {new(big.Int).Add(r, bigN), 2 + g.r.Intn(2)}} {
+				sb := sigT{c.r, s, c.recid}.bytes()
+				var rec []byte
+				var code int
+				obs := ""
+				if Guard(func() { rec, code = secp.RecoverPublicKey(sb[:64], msg, c.recid) }) {
+					obs = "panic"
+				} else if rec != nil {
+					obs = fmt.Sprintf("%d %s", code, hx(rec))
+				} else {
+					obs = fmt.Sprintf("%d nil", code)
+				}
+				emit("adv", "recover", []string{hx(msg), hx(sb)}, obs, map[string]interface{}{"kind": "r in [n,p) classes"}, true)
+			}
+		}
+	}
+
 	// ---- deterministic sweep over curve points with a tiny ordinate (|y| < 120): parsing, validity and
 	//      multiplication by +-1, +-2 (results are again such points).  The field code holds these
 	//      ordinates in non-canonical form at various places (findings fixed in 04aa20fed, 0989034ad).
